@@ -373,6 +373,7 @@ def check(chk):
                detail="waits %s" % sorted(names), construct=f_.ident, text="%s waits %s" % (cls, sorted(names - posted_lits)))
 
     _producers(chk, repo)
+    _defaults(chk, repo)
     _conditions_at_dispatch(chk, repo)
 
     # ------------------------------------------------------------ PAIR-19
@@ -459,6 +460,53 @@ def _conditions_at_dispatch(chk, repo):
                    detail="a condition evaluated before the loop is stale for every handler that runs after another one", construct=f.ident,
                    text="condition evaluated outside the dispatch loop in " + nm)
     chk.ob("STALE-1", "dispatch-time condition evaluations examined", n >= 2, EV + ":1", detail=str(n), nontrivial=False)
+
+
+def _defaults(chk, repo):
+    """DEFAULT-16: a template whose evaluation fails (missing variable, incompatible operands, no result) yields its configured default,
+    on the plain and on the subscribing path alike -- never None, never a value from a half-evaluated expression; only the strict
+    mode (fail_on_missing_params) and config errors are passed on."""
+    PM = "mpf/core/placeholder_manager.py"
+    bt = repo.cls(PM, "BaseTemplate")
+    f = bt.methods["evaluate"]
+    chk.analysed(f)
+    cfg = f.cfg()
+    rets = [n for n in cfg.nodes if n.kind == "stmt" and isinstance(n.ast, ast.Return)]
+    n_def = 0
+    for r in rets:
+        v = src(r.ast.value) if r.ast.value is not None else "None"
+        handler = [h for h in ast.walk(f.node) if isinstance(h, ast.ExceptHandler) and any(y is r.ast for y in ast.walk(h))]
+        g = cfg.guards_at(r.id)
+        if handler or g.get("result is None") is True:
+            n_def += 1
+            chk.ob("DEFAULT-16", "a failed or empty evaluation returns the template's default value", v == "self.default_value", f.where(r.ast), detail="returns " + v,
+                   construct=f.ident, text="failure path returns " + v)
+        else:
+            chk.ob("DEFAULT-16", "a successful evaluation returns the converted result", v == "self.convert_result(result)", f.where(r.ast), detail="returns " + v,
+                   construct=f.ident, text="success path returns " + v)
+    hs = {src(h.type) if h.type is not None else "": h for h in ast.walk(f.node) if isinstance(h, ast.ExceptHandler)}
+    ok = "ValueError" in hs and "TemplateEvalError" in hs and n_def >= 3
+    chk.ob("DEFAULT-16", "missing variables (ValueError) and failed sub-expressions (TemplateEvalError) are handled, as is an empty result", ok, f.where(),
+           detail="%s, %d default returns" % (sorted(hs), n_def), construct=f.ident, text="failure kinds handled")
+    if "ValueError" in hs:
+        h = hs["ValueError"]
+        rs = [x for x in ast.walk(h) if isinstance(x, ast.Raise)]
+        rn = [n for n in cfg.nodes if rs and n.ast is rs[0] and n.kind != "branch"]
+        ok = len(rs) == 1 and rs[0].exc is None and bool(rn) and cfg.guards_at(rn[0].id, ignore_exc=False).get("fail_on_missing_params") is True
+        chk.ob("DEFAULT-16", "a missing variable is passed on only in strict mode", ok, f.where(h), construct=f.ident, text="strict mode re-raise")
+    es = bt.methods["evaluate_and_subscribe"]
+    chk.analysed(es)
+    ecfg = es.cfg()
+    asg = [n for n in ecfg.nodes if n.kind == "stmt" and isinstance(n.ast, ast.Assign) and src(n.ast.targets[0]) == "result" and src(n.ast.value) == "self.default_value"]
+    ok = len(asg) == 1
+    if ok:
+        t = [y for y in ast.walk(es.node) if isinstance(y, ast.If) and any(z is asg[0].ast for z in y.body)]
+        ok = bool(t) and isinstance(t[0].test, ast.BoolOp) and isinstance(t[0].test.op, ast.Or) and \
+            sorted(src(o) for o in t[0].test.values) == sorted(["isinstance(result, TemplateEvalError)", "result is None"])
+    rr = [r for r in ast.walk(es.node) if isinstance(r, ast.Return)]
+    ok = ok and len(rr) == 1 and isinstance(rr[0].value, ast.Tuple) and [src(e) for e in rr[0].value.elts] == ["self.convert_result(result)", "subscriptions"]
+    chk.ob("DEFAULT-16", "while subscribing, a failed or empty evaluation is replaced by the default before conversion; the subscriptions are returned with it", ok,
+           es.where(), construct=es.ident, text="subscribing default")
 
 
 def _producers(chk, repo):
@@ -651,6 +699,10 @@ def battery():
         M("twin: done futures skipped with continue", "mpf/core/device_monitor.py", "                    if not future.done():\n                        future.set_result(True)\n", "                    if future.done():\n                        continue\n                    future.set_result(True)\n", None),
         M("queue-event conditions evaluated once before the dispatch loop", "mpf/core/events.py", "        for handler in self.registered_handlers[event][:]:", "        for handler in [h for h in self.registered_handlers[event] if h.condition is None or h.condition.evaluate(dict(list(kwargs.items()) + list(h.kwargs.items())))]:", "STALE-1", nth=0),
         M("event conditions evaluated once before the dispatch loop", "mpf/core/events.py", "        for handler in self.registered_handlers[event][:]:", "        for handler in [h for h in self.registered_handlers[event] if h.condition is None or h.condition.evaluate(dict(list(kwargs.items()) + list(h.kwargs.items())))]:", "STALE-1", nth=1),
+        M("failed sub-expression yields None instead of the default", "mpf/core/placeholder_manager.py", "        except TemplateEvalError:\n            return self.default_value", "        except TemplateEvalError:\n            return None", "DEFAULT-16"),
+        M("empty result converted instead of defaulted", "mpf/core/placeholder_manager.py", "        if result is None:\n            return self.default_value\n        return self.convert_result(result)\n\n    def evaluate_or_none", "        return self.convert_result(result)\n\n    def evaluate_or_none", "DEFAULT-16"),
+        M("missing variable always raised", "mpf/core/placeholder_manager.py", "            if fail_on_missing_params:\n                raise\n            return self.default_value", "            raise", "DEFAULT-16"),
+        M("subscribing evaluation keeps the error object as value", "mpf/core/placeholder_manager.py", "        if isinstance(result, TemplateEvalError) or result is None:\n            result = self.default_value", "        if result is None:\n            result = self.default_value", "DEFAULT-16"),
     ]
 
 
